@@ -5,7 +5,7 @@
 //! `build_parallel()` vs an independent recursive lister.
 
 use std::{
-    collections::BTreeMap,
+    collections::{BTreeMap, BTreeSet},
     path::{Path, PathBuf},
     sync::{Arc, Mutex},
 };
@@ -532,6 +532,72 @@ fn nested_ignore_layer(tier: Tier) -> Nested {
     out.into_inner().unwrap()
 }
 
+/// Trees with mode-000 directories at depth 1 and 2, listed with
+/// `rg --files [--max-depth d]` at -j1 and -j2 as uid 65534. Reference: a
+/// directory is opened exactly if its depth is below the limit, so an
+/// unreadable directory AT the limit is neither listed into nor an error;
+/// both walkers must print the same files, the same number of diagnostics
+/// and exit with the same status.
+fn unreadable_layer() -> (u64, Vec<(String, Value)>) {
+    use std::process::Command;
+    let rg = build_rg();
+    let scratch = Scratch::new("c06u");
+    let t = scratch.path.join("t");
+    // (path, depth of the entry, readable directory?)
+    for d in ["d/e", "k/u/w", "k/r"] {
+        std::fs::create_dir_all(t.join(d)).unwrap_or_else(|_| machinery_error("scratch"));
+    }
+    for f in ["f", "d/g", "d/e/x", "k/v", "k/u/h", "k/u/w/y", "k/r/z"] {
+        std::fs::write(t.join(f), "x\n").unwrap_or_else(|_| machinery_error("scratch"));
+    }
+    let _ = Command::new("chmod").arg("755").arg(&scratch.path).arg(&t).status();
+    let _ = Command::new("chmod").arg("000").arg(t.join("d")).arg(t.join("k/u")).status();
+    // files with their depth, and the unreadable directories with theirs
+    let files: [(&str, usize, bool); 7] =
+        [("t/f", 1, true), ("t/d/g", 2, false), ("t/d/e/x", 3, false), ("t/k/v", 2, true), ("t/k/u/h", 3, false), ("t/k/u/w/y", 4, false), ("t/k/r/z", 3, true)];
+    let locked: [(&str, usize); 2] = [("t/d", 1), ("t/k/u", 2)];
+    let mut runs = 0;
+    let mut disc = vec![];
+    for depth in [None, Some(0usize), Some(1), Some(2), Some(3), Some(4)] {
+        let want_files: BTreeSet<String> = files.iter().filter(|(_, d, ok)| *ok && depth.map_or(true, |m| *d <= m)).map(|(p, _, _)| p.to_string()).collect();
+        let want_errors = locked.iter().filter(|(_, d)| depth.map_or(true, |m| *d < m)).count();
+        for threads in ["-j1", "-j2", "-j3"] {
+            let mut cmd = Command::new("setpriv");
+            cmd.args(["--reuid=65534", "--regid=65534", "--clear-groups"]).arg(&rg).args(["--no-config", "--color", "never", "--files", threads]);
+            if let Some(m) = depth {
+                cmd.arg("--max-depth").arg(m.to_string());
+            }
+            cmd.arg("t").current_dir(&scratch.path);
+            let out = cmd.output().unwrap_or_else(|_| machinery_error("cannot run setpriv"));
+            runs += 1;
+            let got: BTreeSet<String> = String::from_utf8_lossy(&out.stdout).lines().map(|l| l.to_string()).collect();
+            let errs = String::from_utf8_lossy(&out.stderr).lines().filter(|l| l.contains("Permission denied")).count();
+            let want_status = if want_errors > 0 { 2 } else if want_files.is_empty() { 1 } else { 0 };
+            let mut why = vec![];
+            if got != want_files {
+                why.push("the listed files differ from the reference".to_string());
+            }
+            if errs != want_errors {
+                why.push(format!("{} permission diagnostics, the reference expects {} (a directory at the depth limit is not opened)", errs, want_errors));
+            }
+            if out.status.code() != Some(want_status) {
+                why.push(format!("exit status {:?}, expected {}", out.status.code(), want_status));
+            }
+            if !why.is_empty() {
+                disc.push((
+                    format!("unreadable | max-depth {:?} | {}", depth, threads),
+                    json!({"kind":"unreadable-directory","max_depth":depth,"threads":threads,"why":why,"stdout":String::from_utf8_lossy(&out.stdout),"stderr":String::from_utf8_lossy(&out.stderr),"status":out.status.code()}),
+                ));
+            }
+        }
+    }
+    let _ = Command::new("chmod").arg("755").arg(t.join("d")).arg(t.join("k/u")).status();
+    if runs == 0 {
+        machinery_error("C06: the unreadable-directory layer did not run");
+    }
+    (runs, disc)
+}
+
 pub fn run(args: &Args) -> ! {
     if let Some(r) = &args.replay {
         replay(r);
@@ -712,6 +778,13 @@ pub fn run(args: &Args) -> ! {
     for (k, v) in nested.disc.iter() {
         verdict.discrepancy(None, k, v.clone());
     }
+    // ---- layer 3: directories that cannot be read, at / above / below the
+    // depth limit, through the real binary as an unprivileged user ----------
+    let (unreadable_runs, unreadable_disc) = unreadable_layer();
+    for (k, v) in unreadable_disc.iter() {
+        verdict.discrepancy(None, k, v.clone());
+    }
+    ev.set("unreadable_directory_runs", unreadable_runs);
     if nested.cases_where_the_rule_hides_something == 0 || nested.cases_with_the_named_entry_outside_the_subtree == 0 {
         machinery_error("C06: nested-ignore layer is vacuous");
     }
